@@ -198,6 +198,19 @@ def type_name(variable_type) -> str:
     return name if type(name) is str else '?'
 
 
+def type_text(variable_type) -> str:
+    """
+    Get the text of a type, as used in place of a value we cannot turn into text.
+
+    :param variable_type: the type
+    :return: str(variable_type), or a text made from its name when the metaclass does not let us have that
+    """
+    try:
+        return plain_str(str(variable_type))
+    except BaseException:
+        return "<class '%s'>" % type_name(variable_type)
+
+
 def plain_str(text) -> str:
     """
     Get the text as a plain str.
@@ -222,7 +235,7 @@ def safe_str(value) -> str:
         return plain_str(str(value))
     except BaseException:
         # we cannot know what user code will raise, and it must never abort the collection of the other variables
-        return f'{type(value)}@{id(value)}'
+        return f'{type_text(type(value))}@{id(value)}'
 
 
 def variable_to_string(variable_type, var_value):
@@ -235,7 +248,7 @@ def variable_to_string(variable_type, var_value):
     """
     if type_name(variable_type) in ITER_LIKE_TYPES:
         # if interator like then make a custom string - we do not want to mess with iterators
-        return 'Iterator of type: %s' % variable_type
+        return 'Iterator of type: %s' % type_text(variable_type)
     try:
         if variable_type is dict \
                 or type_name(variable_type) in LIST_LIKE_TYPES:
@@ -247,7 +260,7 @@ def variable_to_string(variable_type, var_value):
     except BaseException:
         # it is possible for str (or len) to fail if there is a custom __str__ function, we cannot know what
         # user code will raise, and it must never abort the collection of the other variables
-        return f'{type(var_value)}@{id(var_value)}'
+        return f'{type_text(type(var_value))}@{id(var_value)}'
 
 
 def process_variable(var_collector: Collector, node: NodeValue) -> VariableResponse:
